@@ -2,7 +2,7 @@
 from __future__ import annotations
 import argparse, json, os, re, subprocess, sys, time, hashlib
 
-VERIF = "/verif"
+VERIF = os.path.dirname(os.path.dirname(os.path.abspath(__file__)))
 COQ = os.path.join(VERIF, "coq")
 
 def sh(cmd, timeout, cwd=None):
